@@ -1,14 +1,17 @@
 package main
 
 import (
+	"bytes"
 	"encoding/json"
 	"fmt"
 	"os"
+	"os/exec"
 	"path/filepath"
 	"runtime"
+	"sort"
 	"strings"
 	"sync"
-	"sync/atomic"
+	"time"
 
 	"verifharness/internal/gen"
 	"verifharness/internal/real"
@@ -41,7 +44,9 @@ type sharedObj struct {
 	text     string // SML text
 	fill     map[string]interface{}
 	counts   map[string]interface{}
-	expected map[string]string
+	twin     *sharedObj // an independently constructed equal object; only it is used for the sequential reference results
+	mu       sync.Mutex
+	got      map[string]string // first result seen per operation during the concurrent phase
 	inflight int32
 }
 
@@ -148,73 +153,171 @@ func doOp(o *sharedObj, op string) (res string) {
 	return "?"
 }
 
+// buildOne constructs the objects of one pool slot from a PRNG stream; called twice with equal streams it
+// gives two independent but equal objects (the shared one and its twin).
+func buildOne(r *rng.R, slot int) *sharedObj {
+	g := gen.New(r, gen.Profile{MaxDepth: 1 + r.Intn(3), Vars: true, Ellipsis: r.Bool(), PlainNames: true, Budget: 120, MaxKids: 3, MaxElems: 4})
+	it := g.Tree()
+	var node ast.ItemNode
+	if o := real.Try(func() { node = real.Build(it) }); o.Panicked {
+		return nil
+	}
+	counts := map[string]interface{}{}
+	for _, v := range it.Vars() {
+		if ref.IsEllipsisName(v) {
+			counts[v] = r.Intn(3)
+		}
+	}
+	fill := map[string]interface{}{}
+	full := fullAssignment(g, it)
+	var keys []string
+	for k := range full {
+		keys = append(keys, k)
+	}
+	sort.Strings(keys)
+	for _, k := range keys {
+		if r.Chance(2, 3) {
+			fill[k] = rawOf(full[k])
+		}
+	}
+	switch slot % 7 {
+	case 5:
+		// a variable-free tree: its encoder and printer do real work on shared nodes
+		g3 := gen.New(r, gen.Profile{MaxDepth: 1 + r.Intn(3), Budget: 200, MaxKids: 4, MaxElems: 4})
+		t := g3.Tree()
+		var n ast.ItemNode
+		if o := real.Try(func() { n = real.Build(t) }); o.Panicked {
+			return nil
+		}
+		return &sharedObj{kind: "item", item: n, fill: map[string]interface{}{}, counts: map[string]interface{}{}}
+	case 6:
+		// a complete message around a variable-free tree
+		g3 := gen.New(r, gen.Profile{MaxDepth: 1 + r.Intn(3), Budget: 200, MaxKids: 4, MaxElems: 4})
+		m := g3.Msg(g3.Tree(), true)
+		var dm *ast.DataMessage
+		if o := real.Try(func() { dm = real.BuildMsg(m) }); o.Panicked {
+			return nil
+		}
+		return &sharedObj{kind: "data", data: dm, fill: map[string]interface{}{}}
+	case 0:
+		return &sharedObj{kind: "item", item: node, fill: fill, counts: counts}
+	case 1:
+		m := g.Msg(it, false)
+		var dm *ast.DataMessage
+		if o := real.Try(func() { dm = real.BuildMsg(m) }); o.Panicked {
+			return nil
+		}
+		return &sharedObj{kind: "data", data: dm, fill: fill}
+	case 2:
+		sys := r.Bytes(4)
+		var c ast.HSMSMessage
+		switch r.Intn(4) {
+		case 0:
+			c = ast.NewHSMSMessageSelectReq(uint16(r.Intn(65536)), sys)
+		case 1:
+			c = ast.NewHSMSMessageDeselectReq(uint16(r.Intn(65536)), sys)
+		case 2:
+			c = ast.NewHSMSMessageLinktestReq(sys)
+		default:
+			c = ast.NewHSMSMessageRejectReq(7, 0, 3, sys, 1)
+		}
+		return &sharedObj{kind: "control", ctl: c}
+	case 3:
+		g2 := gen.New(r, gen.Profile{MaxDepth: 2, Budget: 200, Boundary: true})
+		m := g2.Msg(g2.Tree(), true)
+		return &sharedObj{kind: "bytes", buf: ref.EncodeMessage(m)}
+	default:
+		m := g.Msg(it, false)
+		m.Session = -1
+		txt := ref.PrintMsg(m)
+		if r.Bool() {
+			txt += "\n// comment\n" + ref.PrintMsg(g.Msg(g.Tree(), false))
+		}
+		return &sharedObj{kind: "text", text: txt}
+	}
+}
+
+// buildPool constructs n shared objects and their twins. Nothing is asked of the shared objects before the
+// concurrent phase (no observer, no encoder), so lazily initialised state is first touched under concurrency.
 func buildPool(r *rng.R, n int) []*sharedObj {
 	var pool []*sharedObj
-	for len(pool) < n {
-		g := gen.New(r, gen.Profile{MaxDepth: 1 + r.Intn(3), Vars: true, Ellipsis: r.Bool(), PlainNames: true, Budget: 120, MaxKids: 3, MaxElems: 4})
-		it := g.Tree()
-		var node ast.ItemNode
-		if o := real.Try(func() { node = real.Build(it) }); o.Panicked {
+	for slot := 0; len(pool) < n; slot++ {
+		seed := r.U64()
+		o := buildOne(rng.New(seed), slot)
+		if o == nil {
 			continue
 		}
-		counts := map[string]interface{}{}
-		for _, v := range it.Vars() {
-			if ref.IsEllipsisName(v) {
-				counts[v] = r.Intn(3)
-			}
-		}
-		fill := map[string]interface{}{}
-		for k, v := range fullAssignment(g, it) {
-			if r.Chance(2, 3) {
-				fill[k] = rawOf(v)
-			}
-		}
-		switch len(pool) % 5 {
-		case 0:
-			pool = append(pool, &sharedObj{kind: "item", item: node, fill: fill, counts: counts})
-		case 1:
-			m := g.Msg(it, false)
-			var dm *ast.DataMessage
-			if o := real.Try(func() { dm = real.BuildMsg(m) }); o.Panicked {
-				continue
-			}
-			pool = append(pool, &sharedObj{kind: "data", data: dm, fill: fill})
-		case 2:
-			sys := r.Bytes(4)
-			var c ast.HSMSMessage
-			switch r.Intn(4) {
-			case 0:
-				c = ast.NewHSMSMessageSelectReq(uint16(r.Intn(65536)), sys)
-			case 1:
-				c = ast.NewHSMSMessageDeselectReq(uint16(r.Intn(65536)), sys)
-			case 2:
-				c = ast.NewHSMSMessageLinktestReq(sys)
-			default:
-				c = ast.NewHSMSMessageRejectReq(7, 0, 3, sys, 1)
-			}
-			pool = append(pool, &sharedObj{kind: "control", ctl: c})
-		case 3:
-			g2 := gen.New(r, gen.Profile{MaxDepth: 2, Budget: 200, Boundary: true})
-			m := g2.Msg(g2.Tree(), true)
-			pool = append(pool, &sharedObj{kind: "bytes", buf: ref.EncodeMessage(m)})
-		case 4:
-			m := g.Msg(it, false)
-			m.Session = -1
-			txt := ref.PrintMsg(m)
-			if r.Bool() {
-				txt += "\n// comment\n" + ref.PrintMsg(g.Msg(g.Tree(), false))
-			}
-			pool = append(pool, &sharedObj{kind: "text", text: txt})
-		}
-	}
-	// sequential pre-pass
-	for _, o := range pool {
-		o.expected = map[string]string{}
-		for _, op := range c17Ops[o.kind] {
-			o.expected[op] = doOp(o, op)
-		}
+		o.twin = buildOne(rng.New(seed), slot)
+		o.got = map[string]string{}
+		pool = append(pool, o)
 	}
 	return pool
+}
+
+// freshNameWork builds, prints, fills and parses objects whose variable names have never been seen by the process
+// before, and checks them against the model: package-level state keyed by names is then written under concurrency.
+func freshNameWork(gr *rng.R, tag string) string {
+	g := gen.New(gr, gen.Profile{MaxDepth: 2, Vars: true, Ellipsis: gr.Bool(), PlainNames: true, Budget: 60, MaxKids: 3, MaxElems: 3})
+	it := g.Tree()
+	renameVars(it, tag)
+	var node ast.ItemNode
+	if o := real.Try(func() { node = real.Build(it) }); o.Panicked {
+		return "fresh item refused: " + o.Text
+	}
+	if d := ref.MatchPrinted(real.Str(node), ref.PrintSegs(it)); d != "" {
+		return "fresh item printed wrong: " + d
+	}
+	if !real.EqStrs(node.Variables(), it.Vars()) {
+		return fmt.Sprintf("fresh item variables %q want %q", node.Variables(), it.Vars())
+	}
+	m := g.Msg(it, false)
+	m.Session = -1
+	msgs, errs, _ := sml.Parse(ref.PrintMsg(m))
+	if len(errs) > 0 || len(msgs) != 1 {
+		return fmt.Sprintf("fresh text rejected: %q", errs)
+	}
+	if !real.EqStrs(ref.NormEllipsis(msgs[0].Variables()), ref.NormEllipsis(it.Vars())) {
+		return fmt.Sprintf("fresh text variables %q want %q", msgs[0].Variables(), it.Vars())
+	}
+	sub := map[string]interface{}{}
+	for k, v := range fullAssignment(g, it) {
+		sub[k] = rawOf(v)
+	}
+	var filled ast.ItemNode
+	if o := real.Try(func() { filled = node.FillVariables(sub) }); o.Panicked {
+		return "fresh fill refused: " + o.Text
+	}
+	for _, v := range filled.Variables() {
+		if !ref.IsEllipsisName(v) {
+			return "fresh fill left variable " + v
+		}
+	}
+	return ""
+}
+
+func renameVars(it *ref.Item, tag string) {
+	if it.Var != "" {
+		if !ref.IsEllipsisName(it.Var) {
+			it.Var += tag
+		}
+		return
+	}
+	switch it.Kind {
+	case ref.L:
+		for _, c := range it.Children {
+			renameVars(c, tag)
+		}
+	case ref.A:
+		if it.AVar != "" {
+			it.AVar += tag
+		}
+	default:
+		for i := range it.Slots {
+			if it.Slots[i].Var != "" {
+				it.Slots[i].Var += tag
+			}
+		}
+	}
 }
 
 var canaryCounter int
@@ -237,7 +340,7 @@ func raceCanary() {
 }
 
 func runC17(c *ctx) {
-	c.Rule = "race-detector build of a multi-goroutine driver: a pool of 200 shared objects (templates with variables and ellipses, messages, control messages, encoded byte strings, SML texts, shared fill maps) with their sequential results; 32 (thorough 64) goroutines hammer a few hot objects per round with String, ToBytes, Variables, Size, Header, SystemBytes, FillVariables (shared read-only map and private maps), ellipsis expansion, SetWaitBit, SetSessionIDAndSystemBytes, Type, response constructors, hsms.Parse of a shared buffer and sml.Parse, with Gosched jitter; 4 (thorough 25) rounds with different seeds. Oracle: no WARNING: DATA RACE block in the race log whose stacks include a frame of the library, and every call returns what the same call returned in the sequential pre-pass; a deliberately racy canary must be reported or the run is inconclusive. non-trivial = a call that started while another goroutine's call on the same object was in flight; distinct by (operation, object, round)"
+	c.Rule = "race-detector build of a multi-goroutine driver: a pool of 200 shared objects (templates with variables and ellipses, messages, control messages, encoded byte strings, SML texts, shared fill maps) whose sequential reference results are computed afterwards on independently constructed twins (nothing is asked of a shared object before the concurrent phase, so lazily initialised state is first touched under concurrency); 32 (thorough 64) goroutines hammer a few hot objects per round with String, ToBytes, Variables, Size, Header, SystemBytes, FillVariables (shared read-only map and private maps), ellipsis expansion, SetWaitBit, SetSessionIDAndSystemBytes, Type, response constructors, hsms.Parse of a shared buffer and sml.Parse, with Gosched jitter, and every 64th operation builds, prints, parses and fills an object whose variable names the process has never seen (checked against the model); 4 (thorough 25) rounds with different seeds. Oracle: no WARNING: DATA RACE block in the race log whose stacks include a frame of the library, and every call returns what the same call returned in the sequential pre-pass; a deliberately racy canary must be reported or the run is inconclusive. non-trivial = a call that started while another goroutine's call on the same object was in flight; distinct by (operation, object, round)"
 	c.Assume = []string{"the race detector judges the executions that happened, not all interleavings", "GORACE log_path is set by bin/check"}
 
 	logPrefix := ""
@@ -255,7 +358,7 @@ func runC17(c *ctx) {
 	rounds := c.pick(4, 25)
 	goroutines := c.pick(32, 64)
 	opsPer := c.pick(2000, 40000)
-	var overlapping, calls, mismatches int64
+	var overlapping, calls, mismatches, compared, freshOps int64
 	for round := 0; round < rounds; round++ {
 		seed := c.rnd.U64()
 		r := rng.New(seed)
@@ -265,10 +368,34 @@ func runC17(c *ctx) {
 		for _, i := range r.Perm(len(pool))[:12] {
 			hot = append(hot, pool[i])
 		}
+		// The hot loop shares nothing between goroutines except the objects under test: no mutex, no atomic, no
+		// channel. Any synchronisation of the monitor itself would order the goroutines' accesses (happens-before)
+		// and hide exactly the unsynchronised access pairs the race detector is there to find. Results, call
+		// intervals and counters are goroutine-local and merged after the join.
+		type call struct {
+			obj    int32
+			t0, t1 int64
+		}
+		type local struct {
+			calls    []call
+			first    map[[2]int]string // (object index, op index) -> first result seen by this goroutine
+			varies   []string
+			fresh    int
+			freshBad []string
+		}
+		objIndex := map[*sharedObj]int{}
+		for i, o := range pool {
+			objIndex[o] = i
+		}
+		locals := make([]*local, goroutines)
 		var wg sync.WaitGroup
+		t00 := time.Now()
 		for gI := 0; gI < goroutines; gI++ {
 			wg.Add(1)
 			gr := rng.New(rng.Mix(seed, uint64(gI)))
+			gID := gI
+			lc := &local{first: map[[2]int]string{}}
+			locals[gI] = lc
 			go func() {
 				defer wg.Done()
 				for k := 0; k < opsPer; k++ {
@@ -279,26 +406,81 @@ func runC17(c *ctx) {
 						o = pool[gr.Intn(len(pool))]
 					}
 					ops := c17Ops[o.kind]
-					op := ops[gr.Intn(len(ops))]
-					if atomic.AddInt32(&o.inflight, 1) > 1 {
-						atomic.AddInt64(&overlapping, 1)
-					}
+					oi := gr.Intn(len(ops))
+					op := ops[oi]
 					if gr.Chance(1, 4) {
 						runtime.Gosched()
 					}
+					t0 := int64(time.Since(t00))
 					got := doOp(o, op)
-					atomic.AddInt32(&o.inflight, -1)
-					atomic.AddInt64(&calls, 1)
-					if got != o.expected[op] {
-						if atomic.AddInt64(&mismatches, 1) <= 3 {
-							c.Violation("C17/result-differs-from-sequential/"+o.kind+"."+op, fmt.Sprintf("%s.%s under concurrency returned %q, alone %q", o.kind, op, clipS(got), clipS(o.expected[op])), c17Case{Seed: seed, Round: round, Note: op})
+					t1 := int64(time.Since(t00))
+					lc.calls = append(lc.calls, call{int32(objIndex[o]), t0, t1})
+					key := [2]int{objIndex[o], oi}
+					if first, seen := lc.first[key]; !seen {
+						lc.first[key] = got
+					} else if got != first && len(lc.varies) < 3 {
+						lc.varies = append(lc.varies, fmt.Sprintf("%s.%s returned %q and %q", o.kind, op, clipS(first), clipS(got)))
+					}
+					if k%64 == 17 {
+						lc.fresh++
+						if d := freshNameWork(gr, fmt.Sprintf("_r%dg%dk%d", round, gID, k)); d != "" && len(lc.freshBad) < 3 {
+							lc.freshBad = append(lc.freshBad, d)
 						}
 					}
 				}
 			}()
 		}
 		wg.Wait()
+		// merge
+		perObj := make([][]call, len(pool))
+		for _, lc := range locals {
+			calls += int64(len(lc.calls))
+			freshOps += int64(lc.fresh)
+			for _, cl := range lc.calls {
+				perObj[cl.obj] = append(perObj[cl.obj], cl)
+			}
+			for _, v := range lc.varies {
+				c.Violation("C17/result-varies-between-calls", v, c17Case{Seed: seed, Round: round})
+			}
+			for _, v := range lc.freshBad {
+				c.Violation("C17/fresh-object-wrong-under-concurrency", v, c17Case{Seed: seed, Round: round, Note: "fresh names"})
+			}
+			for key, got := range lc.first {
+				o := pool[key[0]]
+				op := c17Ops[o.kind][key[1]]
+				if prev, ok := o.got[op]; ok && prev != got {
+					c.Violation("C17/result-varies-between-goroutines/"+o.kind+"."+op, fmt.Sprintf("%q vs %q", clipS(prev), clipS(got)), c17Case{Seed: seed, Round: round, Note: op})
+				}
+				o.got[op] = got
+			}
+		}
+		// calls that started while another goroutine's call on the same object was in flight
+		for _, cs := range perObj {
+			sort.Slice(cs, func(a, b int) bool { return cs[a].t0 < cs[b].t0 })
+			var maxEnd int64 = -1
+			for _, cl := range cs {
+				if cl.t0 < maxEnd {
+					overlapping++
+				}
+				if cl.t1 > maxEnd {
+					maxEnd = cl.t1
+				}
+			}
+		}
+		// sequential reference pass, afterwards and on the twins only
+		for _, o := range pool {
+			for op, got := range o.got {
+				if want := doOp(o.twin, op); got != want {
+					if func() bool { mismatches++; return mismatches <= 6 }() {
+						c.Violation("C17/result-differs-from-sequential/"+o.kind+"."+op, fmt.Sprintf("%s.%s under concurrency returned %q, an equal object asked alone returns %q", o.kind, op, clipS(got), clipS(want)), c17Case{Seed: seed, Round: round, Note: op})
+					}
+				}
+				compared++
+			}
+		}
 	}
+	c.ClassN("operations-compared-with-sequential-twin", compared)
+	c.ClassN("fresh-name-constructions-under-concurrency", freshOps)
 	c.NoteBulk(calls, overlapping)
 	c.ClassN("calls", calls)
 	c.ClassN("calls-overlapping-on-the-same-object", overlapping)
@@ -324,7 +506,10 @@ func runC17(c *ctx) {
 				for _, ln := range strings.Split(blk, "\n") {
 					t := strings.TrimSpace(ln)
 					if strings.HasPrefix(t, "github.com/wolimst/lib-secs2-hsms-go/") {
-						frames = append(frames, strings.SplitN(t, "(", 2)[0])
+						if i := strings.LastIndex(t, "("); i > 0 {
+							t = t[:i]
+						}
+						frames = append(frames, strings.TrimPrefix(t, "github.com/wolimst/lib-secs2-hsms-go/"))
 					}
 				}
 				key := strings.Join(frames, " <- ")
@@ -350,7 +535,49 @@ func runC17(c *ctx) {
 		c.Violation("C17/data-race/"+key, "race detector report: "+clipS(strings.TrimSpace(blk)), c17Case{Note: blk})
 	}
 	c.Sample(map[string]interface{}{"rounds": rounds, "goroutines": goroutines, "ops_per_goroutine": opsPer, "calls": calls, "overlapping_calls": overlapping, "race_blocks": blocks, "canary_reported": canarySeen})
-	c.Required = []string{"canary-reported", "calls-overlapping-on-the-same-object"}
+	c.Required = []string{"canary-reported", "calls-overlapping-on-the-same-object", "operations-compared-with-sequential-twin", "fresh-name-constructions-under-concurrency"}
+}
+
+// c17Parent re-executes this binary as the child that does the work and interprets how it ended.
+func c17Parent(c *ctx) int {
+	exe, _ := os.Executable()
+	cmd := exec.Command(exe, os.Args[1:]...)
+	cmd.Env = append(os.Environ(), "VERIF_C17_CHILD=1")
+	cmd.Stdout = os.Stdout
+	var errBuf bytes.Buffer
+	cmd.Stderr = &errBuf
+	err := cmd.Run()
+	code := 0
+	if ee, ok := err.(*exec.ExitError); ok {
+		code = ee.ExitCode()
+	} else if err != nil {
+		fmt.Println("INCONCLUSIVE property=C17 reason=cannot run the driver:", err)
+		return 2
+	}
+	stderr := errBuf.String()
+	if code == 0 || code == 1 {
+		os.Stderr.WriteString(stderr)
+		return code
+	}
+	// abnormal end of the driver
+	head := stderr
+	if len(head) > 3000 {
+		head = head[:3000]
+	}
+	if strings.Contains(stderr, "fatal error: concurrent map") || strings.Contains(stderr, "github.com/wolimst/lib-secs2-hsms-go/") {
+		kind := "runtime-fatal"
+		if strings.Contains(stderr, "fatal error: concurrent map") {
+			kind = "concurrent-map-access"
+		}
+		c.Rule = "see bin/check C17 on a tree where the driver completes; this run ended when the Go runtime killed the driver"
+		c.NoteBulk(2, 2)
+		c.Sample(map[string]interface{}{"driver_exit_code": code, "stderr_head": firstLines(head, 12)})
+		c.Violation("C17/driver-killed-by-runtime/"+kind, "the concurrent driver was killed by the Go runtime with library frames on the stack: "+firstLines(head, 6), c17Case{Note: head})
+		return c.Finish()
+	}
+	os.Stderr.WriteString(stderr)
+	fmt.Printf("INCONCLUSIVE property=C17 reason=the driver ended with exit code %d\n", code)
+	return 2
 }
 
 func replayC17(c *ctx, raw json.RawMessage) {
